@@ -156,6 +156,16 @@ func c11Sign(r *Run, t *tape.Tape) {
 	case 2:
 		ns = n + 1 + t.Choose(2, "c11.signers.more")
 	}
+	shared := false
+	if n >= 2 && t.Bool(1, 8, "c11.sharedholder") {
+		// one holder object at two positions (holders taken twice from a
+		// template list, a pointer to a loop variable)
+		i := t.Choose(n, "c11.shared.i")
+		j := (i + 1 + t.Choose(n-1, "c11.shared.j")) % n
+		m.Signatures[j] = m.Signatures[i]
+		shared = true
+		r.Fired("app.one-holder-at-two-positions")
+	}
 	var spies []*SpySigner
 	var log []string
 	anyFault := false
@@ -202,6 +212,18 @@ func c11Sign(r *Run, t *tape.Tape) {
 				r.Fail("sign-ok-with-empty-slot", "Sign returned nil but slot %d of %d holds no signature (signer fault %q)", i, n, spies[i].Fault)
 			}
 		}
+		if ns == n && n > 0 && !anyFault {
+			// every slot filled: by the signer at its position
+			vs := make([]cose.Verifier, n)
+			for i := 0; i < n; i++ {
+				vs[i] = r.verifierFor(spec.Signers[i].Key, false)
+			}
+			var verr error
+			r.Lib(func() { verr = m.Verify(spec.External, vs...) })
+			if verr != nil {
+				r.Fail("sign-ok-but-slots-not-filled-by-their-signers", "Sign returned nil, yet the message does not verify under the verifiers of the same keys at the same positions: %v (one holder at two positions: %v)", verr, shared)
+			}
+		}
 	} else {
 		// an error: whatever was stored, the message must not be serialisable
 		// if a slot is empty; and with erroring signers no later signer ran
@@ -220,7 +242,7 @@ func c11Sign(r *Run, t *tape.Tape) {
 					r.Fail("sign-continues-after-signer-error", "signer %d was called although signer %d had returned an error", idx, firstErr)
 				}
 			}
-			if len(m.Signatures[firstErr].Signature) != 0 {
+			if len(m.Signatures[firstErr].Signature) != 0 && !shared {
 				r.Fail("sign-stores-signature-of-failing-signer", "slot %d holds %d signature bytes although its signer returned an error", firstErr, len(m.Signatures[firstErr].Signature))
 			}
 		}
@@ -584,7 +606,13 @@ func c11Empty(r *Run, t *tape.Tape) {
 		_ = i
 	}
 	if n > 0 {
-		mm.Signatures[t.Choose(n, "c11.empty.i")].Signature = [][]byte{nil, {}}[t.Choose(2, "c11.empty.kind")]
+		if i := t.Choose(n, "c11.empty.i"); t.Bool(1, 4, "c11.empty.noholder") {
+			// a slot of make([]*Signature, n) never filled, a holder dropped by a relay
+			mm.Signatures[i] = nil
+			r.Fired("app.slot-without-holder")
+		} else {
+			mm.Signatures[i].Signature = [][]byte{nil, {}}[t.Choose(2, "c11.empty.kind")]
+		}
 	}
 	var b []byte
 	r.Lib(func() { b, err = mm.MarshalCBOR() })
